@@ -108,7 +108,10 @@ class Canon(object):
         if _is_netref(t):
             g = object.__getattribute__
             return ("netref", i, self.enc(g(o, "____id_pack__"), d + 1), g(o, "____refcount__"))
-        st = getattr(o, "_state", None)
+        try:
+            st = getattr(o, "_state", None)
+        except Exception:      # objects with a hostile __getattr__ (rpyc's ClosedFile raises EOFError)
+            st = None
         if st is not None and not isinstance(o, type):
             try:
                 return ("S", i, self.enc(st(), d + 1))
